@@ -27,7 +27,7 @@ pub fn gen_power(seed: u64) -> Plan {
     }
     let backend = rng.pick(&["fd", "fd", "mmap"]).to_string();
     let mut ids = IdGen(0);
-    let mut ops = vec![Op { id: ids.next(), kind: OpKind::Open { inst: 0, key: Some("k".into()), dir: "d".into(), alo: 0, fsync: "each".into() } }];
+    let mut ops = vec![Op { id: ids.next(), kind: OpKind::Open { inst: 0, key: Some("k".into()), dir: "d".into(), alo: 0, fsync: "each".into(), via_env: false } }];
     let n = rng.range(3, 25);
     for _ in 0..n {
         let t = rng.below(n_topics as u64) as u32;
@@ -60,7 +60,7 @@ pub fn gen_power(seed: u64) -> Plan {
         buggify: vec![],
         trace_io: true,
     };
-    let mut v = vec![Op { id: ids.next(), kind: OpKind::Open { inst: 0, key: Some("k".into()), dir: "d".into(), alo: 0, fsync: "each".into() } }];
+    let mut v = vec![Op { id: ids.next(), kind: OpKind::Open { inst: 0, key: Some("k".into()), dir: "d".into(), alo: 0, fsync: "each".into(), via_env: false } }];
     for t in 0..n_topics as u32 {
         v.push(Op { id: ids.next(), kind: OpKind::Drain { inst: 0, topic: t, mode: "next".into(), max: 4000 } });
     }
